@@ -128,6 +128,9 @@ def grammar(F, rep, T):
                         rep.ob("GRAMMAR", "prologue|require", True, "`%s` is a Lua statement" % txt)
                     except luaparse.LuaSyntaxError as ex:
                         rep.ob("GRAMMAR", "prologue|require", False, "`%s`: %s" % (txt, ex))
+    def blank_only(evs):
+        return all((e[0] == "write" and not luatpl.render(e[1]).strip()) or (e[0] == "repeat" and blank_only(e[1])) for e in evs)
+    rep.ob("GRAMMAR", "line-prefix", blank_only(T.T.loop_head), "before an instruction's text only indentation is written (%s)" % [e[0] for e in T.T.loop_head])
     tail = [luatpl.render(e[1]) for e in T.T.loop_tail if e[0] == "write"]
     rep.ob("GRAMMAR", "statement-separator", tail == ["\n"], "every instruction's text is followed by a newline (%r)" % tail)
     # the preamble itself
